@@ -647,7 +647,7 @@ theorem core_submit (c : Cfg) (hfix : c.holdFix = true) (hexp : c.expiryNow = tr
     | some v =>
       rcases inv.idkFrom (b.src, b.ts) (by rw [hl]; rfl) with ⟨a, ha, hst⟩
       exact absurd hst (hsubne a ha)
-  have hstep := sendBundle_kstep env b n inv.wf hidk
+  have hstep := sendBundle_kstep env b n inv.wf hidk hfresh
   have hpast : submitted (past ++ [.submit b]) = submitted past ++ [b] := by rw [submitted_append]; rfl
   have hbnew : b ∈ submitted (past ++ [.submit b]) := by rw [hpast]; exact List.mem_append_right _ List.mem_cons_self
   simp only [stepCore]
